@@ -392,12 +392,29 @@ def attach_monitors(session, rec, cfg):
         rec.pcm.append(entry)
         if stats is not None:
             rec.live_stats = stats      # allocations recorded so far, also when the run fails later
+        n_s, n_o, n_a = len(rec.sizer), len(rec.opt), len(rec.alpha)
         try:
             orders = inner(dt, stats=stats)
         except Exception as e:
             entry["exc"] = type(e).__name__
+            entry["sizer"] = rec.sizer[n_s] if len(rec.sizer) > n_s else None
             raise
         entry["orders"] = [(o.asset, o.quantity, epoch(o.created_dt)) for o in orders]
+        entry["alpha"] = rec.alpha[n_a]["weights"] if len(rec.alpha) > n_a else None
+        if len(rec.sizer) > n_s:
+            entry["sizer"] = rec.sizer[n_s]
+        else:
+            # the construction model did not consult the sizer: obtain the configured sizer's target for the
+            # full weight vector ourselves (nothing has been submitted yet, so the state is the same)
+            w = rec.opt[n_o]["out"] if len(rec.opt) > n_o else (entry["alpha"] or {})
+            full = dict((a, 0.0) for a in sorted(set(entry["held"]) | set(entry["universe"])))
+            full.update(w)
+            try:
+                out = pcm.order_sizer._inner(dt, full) if full else {}
+                entry["sizer"] = {"t": epoch(dt), "weights": full, "exc": None, "bypassed": True,
+                                  "result": dict((a, v["quantity"]) for a, v in out.items())}
+            except Exception as e:
+                entry["sizer"] = None
         return orders
     session.qts.portfolio_construction_model = _CallProxy(pcm, pcm_call)
 
